@@ -40,11 +40,12 @@ type apiRunner struct {
 	hist     []string
 	prevDump string
 	seenOids map[primitive.ObjectID]bool
-	book     ixBook // secondary indexes created by the successful calls so far (C15)
+	book     ixBook          // secondary indexes created by the successful calls so far (C15)
+	reported map[string]bool // C15 issues already reported in this history (an incoherent index stays incoherent)
 }
 
 func newAPIRunner(env *apiEnv, extra string) *apiRunner {
-	return &apiRunner{env: env, extra: extra, prevDump: apiDump(env.engine.Catalog()), seenOids: map[primitive.ObjectID]bool{}, book: ixBook{}}
+	return &apiRunner{env: env, extra: extra, prevDump: apiDump(env.engine.Catalog()), seenOids: map[primitive.ObjectID]bool{}, book: ixBook{}, reported: map[string]bool{}}
 }
 
 // histReq is the replayable request of a violation: the calls so far, verbatim.
@@ -143,6 +144,11 @@ func (m *apiRunner) step(c *apiCall) apiStep {
 		}
 		for _, h := range sortedHandles(post) {
 			for _, is := range indexIssues(post.Namespaces[h]) {
+				if k := h.String() + "|" + is.reason + "|" + is.detail; m.reported[k] {
+					continue
+				} else {
+					m.reported[k] = true
+				}
 				if is.reason == "set-index-stale" {
 					viol("C15", "Set.Index does not map every listed document to its position", "set-index-stale", h.String()+" after "+c.M+" "+reply)
 					continue
@@ -152,6 +158,11 @@ func (m *apiRunner) step(c *apiCall) apiStep {
 			}
 		}
 		for _, is := range m.book.check(post) {
+			if k := is.reason + "|" + is.detail; m.reported[k] {
+				continue
+			} else {
+				m.reported[k] = true
+			}
 			viol("C15", "the indexes of a namespace are not the ones the successful calls created", "index-incoherent:"+is.reason, "after "+c.M+" "+clip(reply, 60)+": "+is.detail)
 		}
 	})
